@@ -472,9 +472,10 @@ func (g *Gen) nullIffZero(o *Occ) {
 				w(`{ v, _ := tf.Attrs[%q].(%s); vrt.Assert("C20/"+path+"/%s:null-iff-zero", v.Null == (%s%s))`, n, g.tfv(s.Leaf.TFVal), n, embOr, zeroExpr(s.Leaf, x))
 				// C02: the attribute named after this field carries this field's value
 				w(`  if %s!v.Null { vrt.Assert("C02/"+path+"/%s:attribute-carries-its-field", %s) } }`, emb, n, tfLeafEq(s.Leaf, "v.Value", toTF(s.Leaf, x)))
-			case s.EmbedPtr == "":
-				// time and duration held by value: excluded from zero-is-null, always rendered
-				w(`{ v, _ := tf.Attrs[%q].(%s); vrt.Assert("C20/"+path+"/%s:by-value-time-duration-rendered", !v.Null) }`, n, g.tfv(s.Leaf.TFVal), n)
+			default:
+				// time and duration held by value: excluded from zero-is-null, always rendered (inside a
+				// nullable embedded message: whenever that message is there)
+				w(`{ v, _ := tf.Attrs[%q].(%s); if %strue { vrt.Assert("C20/"+path+"/%s:by-value-time-duration-rendered", !v.Null) } }`, n, g.tfv(s.Leaf.TFVal), emb, n)
 			}
 		case SList, SMap, SMsgList, SMsgMap:
 			ct := "types.List"
@@ -487,10 +488,9 @@ func (g *Gen) nullIffZero(o *Occ) {
 				w(`{ v, _ := tf.Attrs[%q].(types.Object); vrt.Assert("C20/"+path+"/%s:null-iff-nil", v.Null == (%s%s == nil))`, n, n, embOr, x)
 				w(`  if %s%s != nil && !v.Null { nullIffZero_%s(v, %s, path+"/%s") } }`, emb, x, s.Sub.ID, x, n)
 			} else {
-				if s.EmbedPtr == "" {
-					w(`{ v, _ := tf.Attrs[%q].(types.Object); vrt.Assert("C20/"+path+"/%s:never-null", !v.Null)`, n, n)
-					w(`  if !v.Null { nullIffZero_%s(v, &%s, path+"/%s") } }`, s.Sub.ID, x, n)
-				}
+				// a message held by value is never null - also inside a nullable embedded message that is nil
+				w(`{ v, _ := tf.Attrs[%q].(types.Object); vrt.Assert("C20/"+path+"/%s:never-null", !v.Null)`, n, n)
+				w(`  if %s!v.Null { nullIffZero_%s(v, &%s, path+"/%s") } }`, emb, s.Sub.ID, x, n)
 			}
 		}
 	}
